@@ -25,6 +25,7 @@ import (
 	"github.com/flant/shell-operator/pkg/task/queue"
 	utils "github.com/flant/shell-operator/pkg/utils/labels"
 	"github.com/flant/shell-operator/pkg/utils/measure"
+	"github.com/flant/shell-operator/pkg/utils/verifhook"
 	"github.com/flant/shell-operator/pkg/webhook/admission"
 	"github.com/flant/shell-operator/pkg/webhook/conversion"
 )
@@ -527,6 +528,8 @@ func (op *ShellOperator) taskHandleHookRun(t task.Task) queue.TaskResult {
 		}
 	}
 
+	verifhook.Point("op.afterRateLimitWait", hookMeta.HookName, t)
+
 	metricLabels := map[string]string{
 		"hook":    hookMeta.HookName,
 		"binding": hookMeta.Binding,
@@ -617,6 +620,8 @@ func (op *ShellOperator) taskHandleHookRun(t task.Task) queue.TaskResult {
 		op.MetricStorage.CounterAdd("{PREFIX}hook_run_errors_total", errors, metricLabels)
 		op.MetricStorage.CounterAdd("{PREFIX}hook_run_success_total", success, metricLabels)
 	}
+
+	verifhook.Point("op.afterHookRun", hookMeta.HookName, t, string(res.Status), isSynchronization, shouldRunHook)
 
 	// Unlock Kubernetes events for all monitors when Synchronization task is done.
 	if isSynchronization && res.Status == "Success" {
@@ -745,6 +750,8 @@ func (op *ShellOperator) CombineBindingContextForHook(q *queue.TaskQueue, t task
 			otherTasks = append(otherTasks, tsk)
 		}
 	})
+
+	verifhook.Point("combine.betweenIterateAndFilter", q.Name, t, len(otherTasks))
 
 	// no tasks found to combine
 	if len(otherTasks) == 0 {
